@@ -121,11 +121,15 @@ Section Renaming.
   Lemma lit_matches_rename d line : lit_matches (rn d) (rn line) = lit_matches d line.
   Proof. unfold lit_matches, find_iter. rewrite (find_iter_aux_rename f f_inj), map_length. reflexivity. Qed.
 
-  Lemma maybe_replace_rename o t : o_regex o = None ->
+  (** no regex, or character mode (where selected text is never rewritten) *)
+  Definition rx_ok (o : opt) : Prop := o_regex o = None \/ o_btype o = BChars.
+
+  Lemma maybe_replace_rename o t : rx_ok o ->
     maybe_replace (rename_opt o) (rn t) = option_map rn (maybe_replace o t).
   Proof.
-    intros Hx. unfold maybe_replace. cbn [rename_opt o_btype o_replace o_regex o_delim]. rewrite Hx.
-    destruct (o_btype o); try reflexivity;
+    intros Hx. unfold maybe_replace. cbn [rename_opt o_btype o_replace o_regex o_delim].
+    destruct (o_btype o) eqn:Eb; try reflexivity;
+      (destruct Hx as [Hx|Hx]; [rewrite Hx | congruence]);
       (destruct (o_replace o) as [nd|]; cbn [option_map]; [|reflexivity]);
       unfold replace_matches; rewrite lit_matches_rename, replace_matches_from_rename; reflexivity.
   Qed.
@@ -133,7 +137,7 @@ Section Renaming.
   Lemma emit_part_rename o t : o_json o = false -> emit_part (rename_opt o) (rn t) = option_map rn (emit_part o t).
   Proof. intros Hj. unfold emit_part. cbn [rename_opt o_json]. rewrite Hj. reflexivity. Qed.
 
-  Lemma out_loop_rename o line fields : o_regex o = None -> o_json o = false -> forall bs,
+  Lemma out_loop_rename o line fields : rx_ok o -> o_json o = false -> forall bs,
     out_loop (rename_opt o) (rn line) fields (map rename_item bs) = rename_rres (out_loop o line fields bs).
   Proof.
     intros Hx Hj. induction bs as [|x bs IH]; [reflexivity|].
@@ -173,7 +177,7 @@ Section Renaming.
   Proof. unfold fields_of_matches. rewrite map_length. destruct line; reflexivity. Qed.
 
   (** what follows once the fields are known *)
-  Lemma cut_tail o line (fields0 : list mtch) : o_regex o = None -> o_json o = false ->
+  Lemma cut_tail o line (fields0 : list mtch) : rx_ok o -> o_json o = false ->
     (let fields := if btype_eqb (o_btype o) BChars then drop_outer fields0 else fields0 in
      let n := length fields in
      if o_only_delimited o && Nat.eqb n 1 then Some (ROk [])
@@ -288,10 +292,10 @@ Section Renaming.
     destruct sc.
     - rewrite (compress_rename f f_inj). cbv iota beta.
       destruct (o_greedy o); cbv iota beta; rewrite !lit_matches_rename; cbv iota beta;
-        rewrite !fields_of_matches_rename; apply cut_tail; assumption.
+        rewrite !fields_of_matches_rename; apply cut_tail; try assumption; left; assumption.
     - cbv iota beta.
       destruct (o_greedy o); cbv iota beta; rewrite !lit_matches_rename; cbv iota beta;
-        rewrite !fields_of_matches_rename; apply cut_tail; assumption.
+        rewrite !fields_of_matches_rename; apply cut_tail; try assumption; left; assumption.
   Qed.
 
   Lemma run_records_rename cut cut' :
